@@ -19,6 +19,24 @@ def build_simc():
     log(f"[build] simc rebuilt from /repo in {time.time() - t0:.1f}s")
 
 
+def _u(n, width):
+    return {"ty": {"k": "u", "n": width}, "v": {"k": "vu", "bits": [(n >> (width - 1 - i)) & 1 for i in range(width)]}}
+
+
+MULTI_PARAM_TEMPLATES = [
+    ("fn main() { assert!(jet::eq_32(param::FIRST, 1)); assert!(jet::eq_32(param::SECOND, 2)); "
+     "assert!(jet::eq_32(param::THIRD, 3)); }",
+     [["FIRST", _u(1, 32)], ["SECOND", _u(2, 32)], ["THIRD", _u(3, 32)]]),
+    ("fn low() -> u8 { param::LOW }\nfn main() { let a: u8 = low(); let b: u8 = param::HIGH; let c: u16 = param::WIDE; "
+     "let d: u8 = param::MID; assert!(jet::lt_8(a, d)); assert!(jet::lt_8(d, b)); assert!(jet::eq_16(c, 4660)); }",
+     [["LOW", _u(3, 8)], ["HIGH", _u(200, 8)], ["WIDE", _u(4660, 16)], ["MID", _u(77, 8)], ["EXTRA", _u(9, 8)]]),
+    ("fn main() { let p: (u8, u8) = (param::A, param::B); let q: (u8, u8) = (param::C, param::D); "
+     "let (x, y): (u8, u8) = p; let (z, w): (u8, u8) = q; assert!(jet::eq_8(x, 10)); assert!(jet::eq_8(y, 20)); "
+     "assert!(jet::eq_8(z, 30)); assert!(jet::eq_8(w, 40)); }",
+     [["A", _u(10, 8)], ["B", _u(20, 8)], ["C", _u(30, 8)], ["D", _u(40, 8)]]),
+]
+
+
 def render(tokens):
     def flat(t):
         return "".join(flat(x) for x in t) if isinstance(t, list) else str(t)
@@ -41,13 +59,25 @@ def run(tier, seed):
         inputs.append(p)
     # generated programs: tracked calls on one line, functions, folds, rejected programs, templates
     gen = []
-    for fam, n in (("debug", 24), ("compile", 20), ("fold", 6), ("static", 24), ("params", 4)):
+    for fam, n in (("debug", 24), ("compile", 20), ("fold", 6), ("static", 24), ("params", 12)):
         cs, _ = tlc_family("C19", fam, tier, seed)
         gen += sample(cs, n if tier == "quick" else 4 * n)
     for i, c in enumerate(gen):
         p = os.path.join(srcdir, f"gen_{i:03d}.simf")
         with open(p, "w") as f:
             f.write(render(c["tokens"]))
+        if c.get("args"):
+            # a template: compiled with the arguments of the behaviour (sidecar file read by `vh commit`)
+            with open(p + ".args.json", "w") as f:
+                json.dump(c["args"], f)
+        inputs.append(p)
+    # templates with several parameters of one type: each argument must reach its own parameter in every process
+    for i, (src, args) in enumerate(MULTI_PARAM_TEMPLATES):
+        p = os.path.join(srcdir, f"tmpl_{i:03d}.simf")
+        with open(p, "w") as f:
+            f.write(src)
+        with open(p + ".args.json", "w") as f:
+            json.dump(args, f)
         inputs.append(p)
     listing = os.path.join(wd, "inputs.txt")
     with open(listing, "w") as f:
@@ -80,7 +110,11 @@ def run(tier, seed):
         if errs and len(errs) != len(recs) or (errs and encs):
             out.violation("C19:okerr:" + key, f"compilation of {key} succeeds in some processes and fails in others",
                           {"path": path, "debug": dbg, "source": src[:2000]})
-        # simc
+        # simc (takes no arguments: templates compiled with arguments are compared across processes only)
+        if os.path.exists(path + ".args.json"):
+            n_ok += 1 if (encs and not errs) else 0
+            n_err += 1 if errs else 0
+            continue
         cmd = [SIMC, path] + (["--debug"] if dbg else [])
         p = subprocess.run(cmd, stdout=subprocess.PIPE, stderr=subprocess.PIPE, text=True, env=env_base())
         lib_ok = bool(encs) and not errs
@@ -113,3 +147,40 @@ def run(tier, seed):
     out.assumptions = ["hash seeds differ between processes (std RandomState); the number of processes bounds what is observed",
                        "simc is built by cargo from /repo's working tree into /verif/harness/target/simc_build"]
     return out.finish()
+
+
+def replay_one(body):
+    """Re-run one recorded input: 3 compilations in each of 16 processes and the simc comparison."""
+    build_simc()
+    wd = workdir("C19")
+    p = os.path.join(wd, "replay_input.simf")
+    with open(p, "w") as f:
+        f.write(body["source"])
+    dbg = bool(body.get("debug"))
+    listing = os.path.join(wd, "replay_inputs.txt")
+    with open(listing, "w") as f:
+        f.write(f"{'1' if dbg else '0'}\t{p}\n")
+    encs, cmrs, errs, n = set(), set(), 0, 16
+    for k in range(n):
+        q = subprocess.run([VH, "commit", listing, "3"], stdout=subprocess.PIPE, stderr=subprocess.STDOUT, text=True, env=env_base())
+        if q.returncode != 0:
+            raise ToolError("vh commit failed: " + q.stdout[-500:])
+        for l in q.stdout.splitlines():
+            if l.startswith("{"):
+                r = json.loads(l)
+                encs |= set(r["enc"])
+                cmrs |= set(r["cmr"])
+                errs += 1 if r["err"] else 0
+    found = []
+    if len(encs) > 1 or len(cmrs) > 1:
+        found.append(("C19:xproc", f"{len(encs)} different encodings / {len(cmrs)} CMRs across {n} processes"))
+    if errs and (errs != n or encs):
+        found.append(("C19:okerr", "compilation succeeds in some processes and fails in others"))
+    q = subprocess.run([SIMC, p] + (["--debug"] if dbg else []), stdout=subprocess.PIPE, stderr=subprocess.PIPE, text=True, env=env_base())
+    if encs and not errs:
+        expect = "Program:\n" + base64.b64encode(bytes.fromhex(sorted(encs)[0])).decode() + "\n"
+        if q.returncode != 0 or q.stdout != expect:
+            found.append(("C19:simc", f"simc output differs from the library's commit encoding (exit {q.returncode})"))
+    elif q.returncode == 0 or q.stderr.strip() == "":
+        found.append(("C19:simc-err", f"the library rejects the input but simc exits {q.returncode}"))
+    return found
